@@ -1,0 +1,68 @@
+//go:build verif
+
+// Verification hooks. Only compiled with `-tags verif`; add-only.
+
+package db
+
+// VerifPager is the exported twin of the internal pager interface.
+type VerifPager interface {
+	Page(n int, pagesize int) ([]byte, error)
+	Close() error
+	RLock() error
+	RUnlock() error
+	CheckReservedLock() (bool, error)
+}
+
+type verifPagerAdapter struct{ p VerifPager }
+
+func (a verifPagerAdapter) page(n int, pagesize int) ([]byte, error) { return a.p.Page(n, pagesize) }
+func (a verifPagerAdapter) Close() error                             { return a.p.Close() }
+func (a verifPagerAdapter) RLock() error                             { return a.p.RLock() }
+func (a verifPagerAdapter) RUnlock() error                           { return a.p.RUnlock() }
+func (a verifPagerAdapter) CheckReservedLock() (bool, error)         { return a.p.CheckReservedLock() }
+
+type verifFilePager struct{ p pager }
+
+func (a verifFilePager) Page(n int, pagesize int) ([]byte, error) { return a.p.page(n, pagesize) }
+func (a verifFilePager) Close() error                             { return a.p.Close() }
+func (a verifFilePager) RLock() error                             { return a.p.RLock() }
+func (a verifFilePager) RUnlock() error                           { return a.p.RUnlock() }
+func (a verifFilePager) CheckReservedLock() (bool, error)         { return a.p.CheckReservedLock() }
+
+// VerifOpen opens a Database on a caller supplied pager.
+func VerifOpen(p VerifPager, journal string) (*Database, error) {
+	return newDatabase(verifPagerAdapter{p}, journal)
+}
+
+// VerifFilePager gives the real file pager behind the exported interface.
+func VerifFilePager(file string) (VerifPager, error) {
+	p, err := newFilePager(file)
+	if err != nil {
+		return nil, err
+	}
+	return verifFilePager{p}, nil
+}
+
+// VerifSetOpenFileHook installs (or with nil removes) a replacement for
+// OpenFile, so handles opened by other packages can be observed.
+func VerifSetOpenFileHook(h func(file string) (*Database, error)) { verifOpenFileHook = h }
+
+var verifOpenFileHook func(file string) (*Database, error)
+
+// exported wrappers of internal pure functions, for call-level traces
+
+func VerifLocalPayload(l int64, pageSize int, maxInPagePayload int) int {
+	return calculateCellInPageBytes(l, pageSize, maxInPagePayload)
+}
+func VerifReadVarint(b []byte) (int64, int)       { return readVarint(b) }
+func VerifParseRecord(b []byte) (Record, error)   { return parseRecord(b) }
+func VerifValidJournal(file string) (bool, error) { return validJournal(file) }
+func VerifCompare(a, b interface{}, coll string) int {
+	return compare(a, b, CollateFuncs[coll])
+}
+
+// VerifParseHeader returns page size, change counter, schema cookie.
+func VerifParseHeader(b []byte) (int, uint32, uint32, error) {
+	h, err := parseHeader(b)
+	return h.PageSize, h.ChangeCounter, h.SchemaCookie, err
+}
